@@ -266,7 +266,9 @@ def fresh(eng, st: State, ty, name: str) -> V:
         e = z3.Const(fresh_name(name), z3.SeqSort(elem_sort(eng, ty.args[0])))
         return VSeq(e, ty.args[0])
     if h == "obj":
-        return VObj(z3.Const(fresh_name(name), ObjS), ty.args[0].head if ty.args else None)
+        e = z3.Const(fresh_name(name), ObjS)
+        st.fact(e != z3.Const("none-obj", ObjS))       # an object is not the boxed None
+        return VObj(e, ty.args[0].head if ty.args else None)
     hk = eng.hooks.get("fresh")
     if hk is not None:
         v = hk(eng, st, ty, name)
@@ -432,14 +434,14 @@ def apply_contract(eng, c: Contract, fv, args, kwargs, st: State):
             out.append((s, r))
             continue
         # universally quantified ghost inputs: the caller's variable of the same name if it has one, else arbitrary
+        gconsts = []
         for gname, gty in c.ghost_params.items():
-            caller = s.heap[s.frames[-2]] if len(s.frames) >= 2 else None
-            val = None
-            oid = s.frames[-2] if len(s.frames) >= 2 else None
-            while oid is not None and val is None:
-                val = s.heap[oid].f.get(gname)
-                oid = s.heap[oid].f.get("__parent__")
-            s.env.f[gname] = val if val is not None else fresh(eng, s, gty, gname)
+            gv = fresh(eng, s, gty, gname)
+            s.env.f[gname] = gv
+            ge = getattr(gv, "e", None) if not isinstance(gv, VFunc) else getattr(gv, "code", None)
+            if ge is None or not z3.is_const(ge):
+                raise Unsupported(f"ghost parameter {gname} of type {gty} cannot be generalised")
+            gconsts.append(ge)
         # requires
         for cl in c.requires:
             g = eval_clause(eng, s, cl.node)
@@ -470,11 +472,18 @@ def apply_contract(eng, c: Contract, fv, args, kwargs, st: State):
             exc = eng.fresh_exception(s_exc, cls) if hasattr(eng, "fresh_exception") else eng.make_exc(s_exc, cls, [])
             for e_txt in spec.get("ensures", []):
                 if isinstance(e_txt, tuple):
+                    if e_txt[0].startswith("own:"):
+                        continue          # about the callee's own locals: an obligation there, not a fact for callers
                     e_txt = e_txt[1]
-                s_exc.assume(eval_clause(eng, s_exc, _parse_expr(e_txt), {"exc": exc}))
+                g = eval_clause(eng, s_exc, _parse_expr(e_txt), {"exc": exc})
+                used = [q for q in gconsts if _mentions(g, q)]
+                s_exc.assume(z3.ForAll(used, g) if used else g)
             if smt.feasible(s_exc.pc):
                 s_exc.frames.pop()
                 s_exc.old = s_old
+                hk = eng.hooks.get("after_apply")
+                if hk is not None:
+                    hk(eng, c, s_exc)
                 s_exc.note(f"{fv.qualname}!{getattr(cls, '__name__', cls)}")
                 out.append((s_exc, Raised(exc)))
         # normal exit
@@ -483,15 +492,36 @@ def apply_contract(eng, c: Contract, fv, args, kwargs, st: State):
         else:
             result = fresh(eng, s, c.result, fv.qualname.split(".")[-1] + "_res")
         for cl in c.ensures:
-            s.assume(eval_clause(eng, s, cl.node, {"result": result}))
+            if getattr(cl, "own_only", False):
+                continue
+            g = eval_clause(eng, s, cl.node, {"result": result})
+            used = [q for q in gconsts if _mentions(g, q)]
+            # a clause about a universally quantified ghost input holds for every value of it
+            s.assume(z3.ForAll(used, g) if used else g)
         for s3 in run_hints(eng, s, c.post_hints, {"result": result}) if False else [s]:
             s3.frames.pop()
             s3.old = s_old
             if c.raises.get("__never_returns__"):
                 continue
             if smt.feasible(s3.pc):
+                hk = eng.hooks.get("after_apply")
+                if hk is not None:
+                    hk(eng, c, s3)
                 out.append((s3, result))
     return out
+
+
+def _mentions(e, c):
+    seen = set()
+
+    def walk(x):
+        if x.get_id() in seen:
+            return False
+        seen.add(x.get_id())
+        if x.eq(c):
+            return True
+        return any(walk(ch) for ch in x.children())
+    return walk(e)
 
 
 def eval_int(eng, st, node):
@@ -769,6 +799,9 @@ def havoc_like(eng, st, old: V, name, ty=None):
             # mutable buffer: havoc its content in place
             nb = fresh(eng, st, "bytes", name)
             o.f["e"] = nb.e
+            return old
+        if o.kind == "slist":
+            o.f["e"] = z3.Const(fresh_name(name), o.f["e"].sort())
             return old
     if isinstance(old, VSeq):
         return VSeq(z3.Const(fresh_name(name), old.e.sort()), old.elem, old.is_tuple)
